@@ -50,6 +50,8 @@ LEAVES = [
      [P("view[offset + 10]", "b10"), P("view[offset + 11]", "b11")], "num", N),
     ("Incoming", "eager_others", F, "DNSIncoming._initial_parse", ("if", "self._num_questions", 0),
      [P("self._num_questions", "nq")], "bool", N),
+    # ---- per-object state: the name cache is a fresh dict in every constructor (pin; a shared dict breaks lazily parsed objects)
+    ("Incoming", "name_cache_fresh", F, "DNSIncoming.__init__", ("fresh_dict", "self._name_cache"), [], "bool", N),
     # ---- loop bounds of the two section loops
     ("Incoming", "q_loop_count", F, "DNSIncoming._read_questions", ("for_range", 0), [P("self._num_questions", "nq")], "num", N),
     ("Incoming", "r_loop_count", F, "DNSIncoming._read_others", ("for_range", 0), [P("n", "n")], "num", N),
